@@ -203,6 +203,10 @@ def cmdSimCtx (c : SimCtx) (t : List String) : SimCtx × String :=
     match parseReg r, parseW d, parseW i with
     | some r, some d, some i => ({ c with sim := s.setReg r ⟨d, i⟩ }, "ok")
     | _, _, _ => bad
+  | ["setrun", n] =>
+    match n.toNat? with
+    | some n => if n < 2 ^ 64 then ({ c with sim := { s with instrRun := n } }, "ok") else bad
+    | none => bad
   | ["initall"] =>
     let s' := { s with mem := s.mem.map (fun w => ⟨w.data, Word.ALL⟩), regs := s.regs.map (fun w => ⟨w.data, Word.ALL⟩) }
     ({ c with sim := s' }, "ok")
